@@ -5,6 +5,7 @@ import (
 	"encoding/binary"
 	"encoding/json"
 	"fmt"
+	"hash/crc32"
 	"image"
 	"image/color"
 	"image/jpeg"
@@ -187,6 +188,9 @@ func genMessage(r *rand.Rand, out string, tame bool) (msg []byte, class string) 
 			return asciiPly(r), "file:ascii-ply"
 		case 2:
 			return binaryStl(r), "file:binary-stl"
+		case 3:
+			b, c := genImage(r)
+			return b, "file:" + c
 		default:
 			b := make([]byte, 1+r.Intn(300))
 			r.Read(b)
@@ -223,66 +227,135 @@ func binaryStl(r *rand.Rand) []byte {
 	return b.Bytes()
 }
 
+// genImage returns the bytes of an image upload: PNGs of every colour model written
+// by Go's default encoder, and uploads in a foreign encoding (what a browser or an
+// image editor would send): JPEG, PNGs written with another compression level, PNGs
+// with ancillary chunks. A loaded parameter can only hold the decoded picture.
 func genImage(r *rand.Rand) ([]byte, string) {
 	w, h := 1+r.Intn(6), 1+r.Intn(6)
+	kind := r.Intn(14)
+	if kind >= 9 {
+		w, h = 12+r.Intn(24), 12+r.Intn(24) // large enough for the compression settings to matter
+	}
 	rect := image.Rect(0, 0, w, h)
 	var img image.Image
 	class := ""
-	rb := func() uint8 { return uint8(r.Intn(256)) }
-	switch r.Intn(7) {
-	case 0:
+	run, last := 0, uint8(0)
+	rb := func() uint8 { // runs of equal bytes, so that the data is compressible
+		if run == 0 {
+			run, last = 1+r.Intn(9), uint8(r.Intn(256))
+			if kind < 9 {
+				run = 1
+			}
+		}
+		run--
+		return last
+	}
+	cm := kind
+	if kind >= 7 {
+		cm = r.Intn(7)
+	}
+	switch cm {
+	case 0, 6:
 		m := image.NewRGBA(rect)
 		for i := 0; i < len(m.Pix); i += 4 {
 			m.Pix[i], m.Pix[i+1], m.Pix[i+2], m.Pix[i+3] = rb(), rb(), rb(), 255
 		}
-		img, class = m, "image:png-rgba-opaque"
+		img, class = m, "rgba-opaque"
 	case 1:
 		m := image.NewNRGBA(rect)
 		for i := range m.Pix {
 			m.Pix[i] = rb()
 		}
-		img, class = m, "image:png-nrgba-alpha"
+		img, class = m, "nrgba-alpha"
 	case 2:
 		m := image.NewGray(rect)
 		for i := range m.Pix {
 			m.Pix[i] = rb()
 		}
-		img, class = m, "image:png-gray"
+		img, class = m, "gray"
 	case 3:
 		pal := color.Palette{color.RGBA{0, 0, 0, 255}, color.RGBA{255, 0, 0, 255}, color.NRGBA{0, 255, 0, 128}, color.RGBA{9, 9, 200, 255}}
 		m := image.NewPaletted(rect, pal)
 		for i := range m.Pix {
-			m.Pix[i] = uint8(r.Intn(len(pal)))
+			m.Pix[i] = rb() % uint8(len(pal))
 		}
-		img, class = m, "image:png-paletted"
+		img, class = m, "paletted"
 	case 4:
 		m := image.NewNRGBA64(rect)
 		for i := range m.Pix {
 			m.Pix[i] = rb()
 		}
-		img, class = m, "image:png-nrgba64"
-	case 5:
+		img, class = m, "nrgba64"
+	default:
 		m := image.NewGray16(rect)
 		for i := range m.Pix {
 			m.Pix[i] = rb()
 		}
-		img, class = m, "image:png-gray16"
-	default:
-		m := image.NewRGBA(image.Rect(0, 0, 8, 8))
-		for i := 0; i < len(m.Pix); i += 4 {
-			m.Pix[i], m.Pix[i+1], m.Pix[i+2], m.Pix[i+3] = rb(), rb(), rb(), 255
-		}
-		var b bytes.Buffer
-		if err := jpeg.Encode(&b, m, &jpeg.Options{Quality: 80}); err != nil {
-			panic(err)
-		}
-		return b.Bytes(), "image:jpeg"
+		img, class = m, "gray16"
 	}
 	var b bytes.Buffer
+	switch {
+	case kind < 7:
+		if err := png.Encode(&b, img); err != nil {
+			panic(err)
+		}
+		return b.Bytes(), "image:png-" + class
+	case kind < 9: // JPEG (colour or gray)
+		if err := jpeg.Encode(&b, img, &jpeg.Options{Quality: 50 + r.Intn(50)}); err != nil {
+			panic(err)
+		}
+		if class == "gray" {
+			return b.Bytes(), "image:jpeg-gray"
+		}
+		return b.Bytes(), "image:jpeg"
+	case kind < 12:
+		lvl := []png.CompressionLevel{png.NoCompression, png.BestSpeed, png.BestCompression}[kind-9]
+		enc := png.Encoder{CompressionLevel: lvl}
+		if err := enc.Encode(&b, img); err != nil {
+			panic(err)
+		}
+		return b.Bytes(), "image:png-" + []string{"no-compression", "best-speed", "best-compression"}[kind-9]
+	}
 	if err := png.Encode(&b, img); err != nil {
 		panic(err)
 	}
-	return b.Bytes(), class
+	return withAncillaryChunks(b.Bytes(), r), "image:png-with-ancillary-chunks"
+}
+
+// withAncillaryChunks inserts tEXt / pHYs / tIME chunks after the IHDR chunk of a PNG.
+func withAncillaryChunks(p []byte, r *rand.Rand) []byte {
+	chunk := func(typ string, data []byte) []byte {
+		out := make([]byte, 0, 12+len(data))
+		out = binary.BigEndian.AppendUint32(out, uint32(len(data)))
+		body := append([]byte(typ), data...)
+		out = append(out, body...)
+		return binary.BigEndian.AppendUint32(out, crc32.ChecksumIEEE(body))
+	}
+	const afterIHDR = 8 + 4 + 4 + 13 + 4
+	out := append([]byte{}, p[:afterIHDR]...)
+	out = append(out, chunk("tEXt", []byte("Software\x00an image editor "+fmt.Sprint(r.Intn(100))))...)
+	if r.Intn(2) == 0 {
+		out = append(out, chunk("pHYs", []byte{0, 0, 0x0b, 0x13, 0, 0, 0x0b, 0x13, 1})...)
+	}
+	if r.Intn(2) == 0 {
+		out = append(out, chunk("tIME", []byte{0x07, 0xe8, 1, 2, 3, 4, 5})...)
+	}
+	return append(out, p[afterIHDR:]...)
+}
+
+// foreignEncoding: decoding the upload and writing it with Go's default PNG encoder
+// (all that a loaded image parameter can do) does not give the uploaded bytes back.
+func foreignEncoding(upload []byte) bool {
+	img, _, err := image.Decode(bytes.NewReader(upload))
+	if err != nil {
+		return false
+	}
+	var b bytes.Buffer
+	if err := png.Encode(&b, img); err != nil {
+		return false
+	}
+	return !bytes.Equal(b.Bytes(), upload)
 }
 
 // genMetaValue produces a JSON-like value (what the metadata endpoint decodes a body into).
